@@ -157,19 +157,21 @@ def check(case: dict) -> dict:
     messages = [list(m) for m in case['messages']]
     keys = [(m[0], m[1], m[2]) for m in messages]
     fs = server()
+    if len(_FRESH) > 40000:
+        _FRESH.clear()  # bounded memory; what this case needs is decoded again below
     need = [k for k in dict.fromkeys(keys) if k not in _FRESH]
     jobs = [{'mode': 'single', 'message': list(k)} for k in need] + [{'mode': 'sequence', 'messages': messages}]
+    retries = fs.retries
     answers = fs.run(jobs)
-    if len(_FRESH) > 40000:
-        _FRESH.clear()
     for k, result in zip(need, answers):
         _FRESH[k] = result
-    # (a key evicted just above is in `need` again next time; the ones of this case were just stored)
     seq = answers[-1]
 
     info = analyse(messages)
     classes = set(info['classes'])
     classes.update(f'motif:{m}' for m in case.get('motifs', []))
+    if fs.retries != retries:
+        classes.add('forkiso:batch-run-again-after-a-lost-fork')
     found: list = []  # (priority, position, signature, message)
 
     for n, key in enumerate(keys):
@@ -231,6 +233,11 @@ def fixed_cases() -> list:
     block = build.attribute(0x40, 1, b'\x00') + build.attribute(0x40, 2, bytes.fromhex('02020001000202010003')) + build.attribute(0x40, 3, bytes([10, 0, 0, 1]))
     plain = build.update_body(b'', block, bytes([24, 10, 0, 1])).hex()  # valid for A (no path-id)
     with_id = build.update_body(b'', block, bytes([0, 0, 0, 1, 24, 10, 0, 1])).hex()  # valid for B (path-id)
+    aigp = build.update_body(
+        b'',
+        build.attribute(0x40, 1, b'\x00') + build.attribute(0x40, 2, b'') + build.attribute(0x40, 3, bytes([10, 0, 0, 1])) + build.attribute(0x40, 5, bytes([0, 0, 0, 100])) + build.attribute(0x80, 26, b'\x01\x00\x0b' + bytes(7) + b'\x0a'),
+        bytes([24, 10, 0, 1]),
+    ).hex()  # valid for A and C (both 4-byte AS, no path-id): A accepts AIGP, C is configured not to
     open_rfc = build.open_with_caps(65001, 90, 0x0A000002, [build.cap_mp(1, 1), build.cap_refresh()]).hex()
     open_cisco = build.open_with_caps(65001, 90, 0x0A000002, [build.cap_mp(1, 1), build.capability(128, b'')]).hex()
     return [
@@ -238,7 +245,9 @@ def fixed_cases() -> list:
         {'messages': [[0, UPDATE, plain], [1, UPDATE, with_id]], 'motifs': ['fixed:4-byte-then-2-byte']},
         {'messages': [[1, UPDATE, with_id], [1, UPDATE, '00000000'], [0, UPDATE, plain], [1, UPDATE, with_id]], 'motifs': ['fixed:end-of-rib-between']},
         {'messages': [[0, OPEN, open_rfc], [2, OPEN, open_cisco], [0, NOTIFICATION, '0602']], 'motifs': ['fixed:route-refresh-codes']},
+        {'messages': [[0, UPDATE, aigp], [2, UPDATE, aigp]], 'motifs': ['fixed:aigp-accepted-then-not']},
+        {'messages': [[2, UPDATE, aigp], [0, UPDATE, aigp]], 'motifs': ['fixed:aigp-refused-then-accepted']},
     ]
 
 
-ENGINES = [Engine('sequences', gen.sequences, check, quick=90, thorough=2000, batch=45, fixed_cases=fixed_cases, quick_s=40.0, thorough_s=900.0)]
+ENGINES = [Engine('sequences', gen.sequences, check, quick=90, thorough=2000, batch=15, fixed_cases=fixed_cases, quick_s=40.0, thorough_s=900.0)]
